@@ -20,6 +20,30 @@ Theorem verifier_accepts : forall p creds x disable,
 Proof. exact verifier_accepts_lemma. Qed.
 Print Assumptions verifier_accepts.
 
+(* The same for the other public entry point pair, CreateVPArray (one presentation per credential and one merged
+   submission with paths $[i] / $.verifiableCredential[0]) and Match with that merged submission: as data the same
+   credential list and descriptor map, walked presentation by presentation on the verifier side. *)
+Theorem verifier_accepts_presentation_array : forall p creds x disable,
+  NoDup (map d_id (p_descs p)) -> unique_ids creds ->
+  (disable = false -> forall d, In d (p_descs p) -> d_schema d <> []) ->
+  create_vp Fixed p creds = COk x ->
+  exists l, verifier_match_merged Fixed p disable x = MOk l /\ l <> [] /\
+    forall id c, In (id, c) l ->
+      exists d w, find_desc p id = Some d /\ derives Fixed p creds d w /\ c = w_cred w.
+Proof. exact verifier_accepts_merged_lemma. Qed.
+Print Assumptions verifier_accepts_presentation_array.
+
+(* MatchSubmissionRequirement (what a holder application is offered per descriptor): every credential reported
+   under a descriptor of the definition is a holder credential satisfying it, or with
+   WithSelectiveDisclosureApply its disclosed form. *)
+Theorem match_submission_requirement_sound : forall v p creds apply out id cs c,
+  msr v p creds apply = Some out -> In (id, cs) out -> In c cs ->
+  exists d, d_id d = id /\ In d (p_descs p) /\
+    if apply then exists w, derives v p creds d w /\ c = w_cred w
+    else exists i, nth_error creds i = Some c /\ sat_desc d c.
+Proof. exact msr_sound_lemma. Qed.
+Print Assumptions match_submission_requirement_sound.
+
 (* Holder side: every descriptor-map entry points at a credential of the presentation that derives from a holder
    credential satisfying that descriptor, and every credential of the presentation is pointed at by an entry:
    credentials that satisfy no (selected) descriptor are never included. *)
